@@ -7,4 +7,4 @@ trap 'rm -rf "$B"' EXIT
 cmake -G Ninja -S /repo -B "$B" -DCMAKE_BUILD_TYPE=RelWithDebInfo >"$B.log" 2>&1 || { cat "$B.log"; rm -f "$B.log"; exit 2; }
 cmake --build "$B" >>"$B.log" 2>&1 || { cat "$B.log"; rm -f "$B.log"; exit 2; }
 rm -f "$B.log"
-ctest --test-dir "$B" -j8 --timeout 900
+ctest --test-dir "$B" -j8 --timeout 900 </dev/null
